@@ -667,6 +667,14 @@ def queue_obs(prefix, which=("absorb", "fullmoves")):
     return obs
 
 
+def force_abandon_obs(prefix):
+    return [q_ob(prefix + ".force_abandon.a%d_k%d" % (af, k), "h_force_abandon", defines=["AFULL=%d" % af, "BHAS=0", "KPAGE=%d" % k], cost=30,
+                 replace={"_mi_heap_delayed_free_partial": "stub_delayed_free_partial", "_mi_heap_delayed_free_all": "stub_delayed_free_all_move"},
+                 funcs=["_mi_page_force_abandon", "_mi_page_abandon", "_mi_page_free", "mi_page_queue_remove", "mi_heap_page_queue_of", "_mi_page_use_delayed_free", "_mi_page_unfull"],
+                 bounds="3 pages (64-byte class), full-queue mask %s, page %d force-abandoned; the preceding drain may move it out of the full queue" % (bin(af), k))
+            for af, k in ((0b001, 0), (0b111, 1), (0b010, 1))]
+
+
 def c10():
     return queue_obs("C10")
 
@@ -709,6 +717,7 @@ def lists_obs(prefix):
 
 def c02():
     return lists_obs("C02") + page_obs("C02", [E_COLLECT, E_MALLOC], sizes=((32, 5),), flavours=("release",)) + [
+        ] + force_abandon_obs("C02") + [
         ar_ob("C02.abandon_bit", "h_abandon_bit", cost=30, funcs=["_mi_arena_segment_clear_abandoned", "_mi_arena_segment_mark_abandoned", "_mi_bitmap_unclaim", "_mi_bitmap_claim"],
               bounds="reclaim-on-free ownership decision: one arena of 8 blocks, abandoned bitmap word under interference")]
 
@@ -757,6 +766,7 @@ def c09():
     obs += lists_obs("C09")[:1]
     obs += reclaim_obs("C09")
     obs.append(abandoned_visit_ob("C09"))
+    obs += force_abandon_obs("C09")
     return obs
 
 
